@@ -508,6 +508,65 @@ def rule_R7(text, applied, arg=None):
     return text
 
 
+def rule_R7ref(text, applied):
+    """`for &PAT in [&]E {` over a slice/Vec of Copy elements -> increment-first index loop (continue-safe):
+    `let mut iN_: usize = 0; while iN_ < E.len() { let PAT = E[iN_]; iN_ += 1;`"""
+    cnt = 0
+    while True:
+        m_text = mask(text)
+        m = re.search(r"\bfor\s*&\s*(\w+|\([^)]*\))\s+in\s+&?\s*([\w\.]+?)\s*\{", m_text)
+        if not m:
+            break
+        pat, coll = text[m.start(1):m.end(1)], "".join(m.group(2).split())
+        iv = f"j{cnt}_"
+        head = f"let mut {iv}: usize = 0; while {iv} < {coll}.len() {{ let {pat} = {coll}[{iv}]; {iv} += 1;"
+        text = text[:m.start()] + _keep_newlines(text[m.start():m.end()], head) + text[m.end():]
+        cnt += 1
+    if cnt:
+        applied.append(f"R7refx{cnt}")
+    return text
+
+
+def rule_R7array(text, applied):
+    """`for (I, X) in E.into_iter().enumerate() {` over a Copy array -> index loop with `let X = E[I];`"""
+    cnt = 0
+    while True:
+        m_text = mask(text)
+        m = re.search(r"\bfor\s*\(\s*(\w+)\s*,\s*(\w+)\s*\)\s*in\s+([\w\.]+?)\s*\.\s*into_iter\(\)\s*\.\s*enumerate\(\)\s*\{", m_text)
+        if not m:
+            break
+        i_name, x_name, coll = m.group(1), m.group(2), "".join(m.group(3).split())
+        ob = m.end() - 1
+        cb = match_close(m_text, ob)
+        if re.search(r"\bcontinue\b|\bbreak\b", m_text[ob + 1:cb]):
+            raise ExtractError("R7array: loop body contains continue/break")
+        head = f"let mut {i_name}: usize = 0; while {i_name} < {coll}.len() {{ let {x_name} = {coll}[{i_name}];"
+        tail = f"; {i_name} += 1; }}"
+        text = text[:m.start()] + _keep_newlines(text[m.start():ob + 1], head) + text[ob + 1:cb] + tail + text[cb + 1:]
+        cnt += 1
+    if cnt:
+        applied.append(f"R7arrayx{cnt}")
+    return text
+
+
+def rule_R17(text, applied):
+    """destructuring parameter pattern `Type { a, b }: Type<'x>` -> named parameter `arg_: Type<'x>` plus
+    `let Type { a, b } = arg_;` as the first statement of the body."""
+    m_text = mask(text)
+    fn_kw = re.search(r"\bfn\b", m_text).start()
+    m = re.search(r"(\w+)\s*\{([^{}]*)\}\s*:\s*(\w+(?:<[^>]*>)?)", m_text[fn_kw:])
+    if not m:
+        raise ExtractError("R17: no destructuring parameter (lost anchor)")
+    a, b = fn_kw + m.start(), fn_kw + m.end()
+    pat = " ".join(text[a:fn_kw + m.end(2) + 1].split())
+    ty = text[fn_kw + m.start(3):b]
+    ob = next_body_brace(m_text, fn_kw)
+    new_param = _keep_newlines(text[a:b], f"arg_: {ty}")
+    text = text[:a] + new_param + text[b:ob + 1] + f" let {pat} = arg_;" + text[ob + 1:]
+    applied.append("R17x1")
+    return text
+
+
 def rule_R10(text, applied, arg=None):
     """FnMut callback parameter -> logging sink object: `mut NAME: impl FnMut(..) [-> R]` becomes
     `NAME: &mut TYPE`, calls `NAME(args)` become `NAME.call(args)`.  arg = NAME=TYPE."""
@@ -857,6 +916,7 @@ RULES = {
     "R1": rule_R1, "R2": rule_R2, "R2ref": rule_R2ref, "R3": rule_R3, "R4": rule_R4, "R5": rule_R5,
     "R8max": rule_R8max, "R8cmpmax": rule_R8cmpmax, "R8resize_none": rule_R8resize_none, "R9": rule_R9, "R8position": rule_R8position, "R8rotate": rule_R8rotate, "R12refcell": rule_R12refcell,
     "R8slice": rule_R8slice, "R7iter": rule_R7iter, "R8bitget": rule_R8bitget, "R12cell": rule_R12cell, "R8resize_veccap": rule_R8resize_veccap, "R8collectid": rule_R8collectid, "R8index": rule_R8index, "subst": rule_subst,
+    "R7ref": rule_R7ref, "R7array": rule_R7array, "R17": rule_R17,
     "R13": rule_R13, "R14": rule_R14, "R2set": rule_R2set, "R8first": rule_R8first, "R7": rule_R7, "R10": rule_R10, "R11": rule_R11,
 }
 ALWAYS = [rule_vis, rule_tracing, rule_const]
@@ -1132,6 +1192,9 @@ def build_item(src: Source, kind, name, opts, emitter: Emitter):
             for extra in opts.get("keep", []):
                 if extra in all_ds:
                     ds.append(extra)
+            # a *derived* PartialEq+Eq is structural equality: tell Verus so (marker derive)
+            if "PartialEq" in ds and "Eq" in ds:
+                ds.append("Structural")
         if ds:
             emitter.emit("#[derive(" + ", ".join(ds) + ")]")
         for tp in opts.get("rrt", []):
